@@ -28,7 +28,7 @@ L_RepSeqs == {<<>>, <<1>>}
 
 \* ---- simulation ----
 S_Batches == {<<1, 1>>, <<1, 2>>, <<2, 3>>, <<5, 4>>, <<1, 0>>, <<7, 1>>, <<3, 5>>, <<1, 127>>, <<100, 128>>, <<1, 129>>, <<20, 255>>, <<1, 256>>}
-S_RepSeqs == {<<>>, <<1>>, <<2>>, <<2>>, <<3>>, <<4>>, <<1, 1>>, <<2, 1>>, <<1, 2>>, <<2, 2>>, <<3, 2>>, <<1, 2, 3>>, <<4, 1>>, <<1, 1, 1, 1>>}
+S_RepSeqs == {<<0>>, <<2, 0>>, <<>>, <<1>>, <<2>>, <<2>>, <<3>>, <<4>>, <<1, 1>>, <<2, 1>>, <<1, 2>>, <<2, 2>>, <<3, 2>>, <<1, 2, 3>>, <<4, 1>>, <<1, 1, 1, 1>>}
 S_SignerSets == {{}, {"ALPHA"}, {"CMT"}, {"M1"}, {"X"}, {"ALPHA", "X"}}
 
 MCInit == Init /\ g = GInit /\ hist = <<>>
@@ -87,7 +87,7 @@ SimAdd ==
   \E S \in OneS(SignerSets), c \in One(Cids), b \in One(Batches) :
     \E v \in {IF RandomElement(1..8) = 1 THEN RandomElement(Vecs) ELSE RandomElement(0..MinOf(NPend(c), MaxVec))},
        bk \in {RandomElement(1..10) = 1}, dup \in {RandomElement(1..3) = 1} :
-      Add(S, c, v, b[1], b[2], bk /\ b[2] > 0, dup /\ b[2] > 0)
+      Add(S, c, v, b[1], b[2], bk, dup /\ b[2] > 0)
 SimCommit ==
   \E S \in OneS(SignerSets), c \in One(Cids) :
     /\ pend[c][0] # <<>> \/ RandomElement(1..6) = 1                               \* empty commits are rare
